@@ -2,7 +2,7 @@
 # Replay of a solver counterexample against the unmodified code (no shims).
 # property=C07 kernel=qubitref label=k1:shift_time
 import sys
-sys.path[:0] = ["/repo/pulser-core", "/repo/pulser-simulation", "/verif"]
+sys.path[:0] = ['/repo' + "/pulser-core", '/repo' + "/pulser-simulation", "/verif"]
 from symx.replay import replay
 sys.exit(replay(check='checks.c07', kernel='qubitref', shape={'ops': ['use', 'inc', 'use', 'inc']},
                 assignment={'t0': 1, 'phi1': 0, 't2': 0, 'phi3': 1}, label='k1:shift_time'))
